@@ -631,7 +631,7 @@ def _passes_pointer(tu, fname, seeds):
 
 
 # ----------------------------------------------------------------------------------------------
-def analyse(chk):
+def _analyse_own(chk):
     chk.rule("l1-order", "l=1 slot <-> Cartesian axis map agrees between sph_harm.c (source), grids_indexer.dirs, "
                          "SDMXylm_yzx2xyz and the derivative-table rows")
     chk.rule("xyz-slots", "feature slots ix+c are paired with Cartesian component c in the add_lp1_* / fill_l1_coeff_* functions")
@@ -658,6 +658,12 @@ def analyse(chk):
         "SDMXshell_eval_grid_cart*), of the PySCF grid generator and of the Python layers",
         "energies and matrices",
     ]
+
+
+def analyse(chk):
+    _analyse_own(chk)
+    chk.guard(lambda c_: core.include_findings(c_, 'C10', files=['ciderpress/lib/mod_cider/sph_harm.c', 'ciderpress/lib/mod_cider/conv_interpolation.c', 'ciderpress/lib/mod_cider/fast_sdmx.c'], rules=None,
+                                               why='schedule-dependent harmonics/kernels break every invariance'))
 
 
 def mutants(tree):
